@@ -70,6 +70,27 @@ CLAIMED['C12'] = ('E1 stepdiff', 'property-based differential testing against an
                   'hints and events, barriers, preloads and coprocessor instructions under random CPACR/NSACR/HCPTR, on configurations with and without the Security '
                   'and Virtualization Extensions, stock and with the mock hooks implemented.', E1_NOTE, 'DESIGN.md section 5 C12')
 
+CLAIMED['C05'] = ('exhaustive table + E1 identity/metamorphic', 'exhaustive enumeration of the condition table + property-based testing with identity and metamorphic oracles',
+                  'The 15x16 condition table is enumerated completely through five instruction forms (ARM MOVcc, Thumb Bcc T1/T3, IT then-slot, ITE else-slot) against the table written '
+                  'by meaning. Every encoding row of the three reference tables is executed with a failing condition from generated states and must change nothing but PC '
+                  '(+length) and ITSTATE (identity oracle, no reference semantics involved); ARM words with a passing condition must equal their cond=AL twin. Exhaustive for the '
+                  'table, sampled for operands.', 'Trusted: legality (UNPREDICTABLE/UNDEFINED) of generated words comes from the reference decode.', 'DESIGN.md section 5 C05')
+CLAIMED['C08'] = ('exhaustive IT start states + E1 programs', 'exhaustive enumeration of IT start states + Hypothesis-generated programs, differential against a reference interpreter',
+                  'All legal (firstcond, mask) x NZCV start states are executed with 1-4 following instructions, and Hypothesis-generated blocks (16/32-bit ALU, CMP inside the block, '
+                  'loads/stores, SVC/UDF/aborting load at every position, branches as last, ARM and Thumb handlers executing the standard return) are compared step by step with the '
+                  'reference machine on the complete state (slot execution, CPSR.IT after every step, flags untouched inside, SPSR IT bits, IT restored by the return).',
+                  E1_NOTE, 'DESIGN.md section 5 C08')
+CLAIMED['C10'] = ('E5 stateful + E1 stepdiff', 'stateful model-based property testing (Hypothesis rule-based machine) + differential stepping focused on wrap-around',
+                  'A Hypothesis rule-based machine drives a real Registers object (writes by current and explicit mode, mode switches, legal CPSR writes, SPSR writes, every '
+                  'exception entry) against a bank-table model; after every rule the whole snapshot, every (n, mode) read and the 32-bit range are checked. The range invariant is '
+                  'additionally asserted after every step of every E1 check, and C10 runs load/store/block/branch/exception encodings with operands at the 0 / 2^32 edges.',
+                  'Trusted: bank table (DESIGN.md A.1) and entry rules of vf/ref/machine.py.', 'DESIGN.md section 5 C10')
+CLAIMED['C11'] = ('E3 unitdiff', 'exhaustive enumeration of routing bits x random remaining state, differential against a table-driven reference',
+                  'Every take_*_exception function and take_reset is called directly; per exception kind the bits its rule reads and every source mode are enumerated completely '
+                  '(thorough) on four extension configurations, all other state random per cell; the complete post-state is compared with the reference entry rules (mode, SPSR, '
+                  'LR/ELR_hyp, A/I/F, IT/J, T/E, vector base incl. V/VBAR/MVBAR/HVBAR/VE, SCR.NS). Entries through instructions are covered by C12/C08/C14.',
+                  'Trusted: vf/ref/machine.py exception entry (B1.9); asynchronous/external aborts are not generated.', 'DESIGN.md section 5 C11')
+
 NOT_YET = {}
 
 
@@ -106,11 +127,11 @@ def main():
             'add_only': True,
         },
         'engines': [
-            {'name': 'E1 stepdiff', 'path': 'vf/props', 'serves_properties': ['C01', 'C02', 'C03', 'C04', 'C09', 'C12'], 'kind_free_text': 'differential stepping of emulate_cycle against the reference model vf/ref'},
+            {'name': 'E1 stepdiff', 'path': 'vf/props', 'serves_properties': ['C01', 'C02', 'C03', 'C04', 'C05', 'C08', 'C09', 'C10', 'C12'], 'kind_free_text': 'differential stepping of emulate_cycle against the reference model vf/ref'},
             {'name': 'E2 decodediff', 'path': 'vf/props/decode_check.py', 'serves_properties': ['C06', 'C07'], 'kind_free_text': 'joint path enumeration of decoders and reference encoding tables'},
-            {'name': 'E3 unitdiff', 'path': 'vf/props/c17.py', 'serves_properties': ['C17'], 'kind_free_text': 'direct calls of helpers against independent re-implementations'},
+            {'name': 'E3 unitdiff', 'path': 'vf/props/c17.py', 'serves_properties': ['C11', 'C17'], 'kind_free_text': 'direct calls of helpers against independent re-implementations'},
             {'name': 'E4 totality', 'path': 'vf/props/c18.py', 'serves_properties': ['C18'], 'kind_free_text': 'validity-predicate fuzzing of emulate_cycle'},
-            {'name': 'E5 stateful', 'path': 'vf/props/c16.py', 'serves_properties': ['C16'], 'kind_free_text': 'Hypothesis rule-based state machines against in-memory models'},
+            {'name': 'E5 stateful', 'path': 'vf/props/c16.py', 'serves_properties': ['C10', 'C16'], 'kind_free_text': 'Hypothesis rule-based state machines against in-memory models'},
         ],
         'checks': checks,
         'not_applicable': na,
